@@ -4,5 +4,6 @@ import ExprModel.Props.C12
 import ExprModel.Props.C13
 import ExprModel.Props.C14
 import ExprModel.Props.C15
+import ExprModel.Props.C16
 import ExprModel.Props.C17
 import ExprModel.Props.C18
